@@ -1,18 +1,23 @@
 // ===== TRUSTED SHIM: peekmore::PeekMoreIterator<std::str::Chars> (peekmore 1.3.0) =====
-// Abstract state: `rest()` = the characters not yet consumed.  The formatter never moves the
-// peek cursor and `Chars` is fused, so `next`/`peek_amount` behave as stated (read from
-// peekmore-1.3.0/src/lib.rs: `next`, `peek_range`, `fill_queue`).  These three bodies are
-// `external_body`: ASSUMED, not proved.  The bound `s@.len() <= isize::MAX` is Rust's allocation
-// guarantee for any `&str` (at most isize::MAX bytes, hence at most that many chars).
+// Abstract state: `rest()` = the characters not yet consumed, `cursor()` = the peek cursor
+// (an offset into `rest()`).  Contracts transcribed from peekmore-1.3.0/src/lib.rs (`next`,
+// `peek`, `peek_nth`, `peek_first`, `peek_next`, `advance_cursor`, `advance_cursor_by`,
+// `reset_cursor`, `cursor`, `peek_range`, `peek_amount`, `next_if_eq`; `Chars` is fused, so the
+// queue of `Option`s behaves like `rest()` followed by `None`s).  All bodies are `external_body`:
+// ASSUMED, not proved.  The formatter as shipped only uses `next` and `peek_amount`; the other
+// methods are modelled so that edits which start using them are still decided instead of undecided.
+// `advance_cursor*` return `()` here (upstream returns `&mut Self` for chaining).
+// The bound `s@.len() <= isize::MAX` is Rust's allocation guarantee for any `&str`.
 #[verifier::external_body]
 pub struct PeekChars { _p: () }
 
 impl PeekChars {
     pub uninterp spec fn rest(&self) -> Seq<char>;
+    pub uninterp spec fn cursor(&self) -> nat;
 
     #[verifier::external_body]
     pub fn new(s: &str) -> (r: PeekChars)
-        ensures r.rest() == s@, s@.len() <= isize::MAX as int,
+        ensures r.rest() == s@, r.cursor() == 0, s@.len() <= isize::MAX as int,
     { unimplemented!() }
 
     #[verifier::external_body]
@@ -20,13 +25,84 @@ impl PeekChars {
         ensures
             old(self).rest().len() == 0 ==> r is None && final(self).rest() == old(self).rest(),
             old(self).rest().len() > 0 ==> r == Some(old(self).rest()[0]) && final(self).rest() == old(self).rest().skip(1),
+            final(self).cursor() == if old(self).cursor() > 0 { (old(self).cursor() - 1) as nat } else { 0 },
+    { unimplemented!() }
+
+    #[verifier::external_body]
+    pub fn peek(&mut self) -> (r: Option<&char>)
+        ensures
+            final(self).rest() == old(self).rest(), final(self).cursor() == old(self).cursor(),
+            old(self).cursor() < old(self).rest().len() ==> r == Some(&old(self).rest()[old(self).cursor() as int]),
+            old(self).cursor() >= old(self).rest().len() ==> r is None,
+    { unimplemented!() }
+
+    #[verifier::external_body]
+    pub fn peek_nth(&mut self, n: usize) -> (r: Option<&char>)
+        ensures
+            final(self).rest() == old(self).rest(), final(self).cursor() == old(self).cursor(),
+            n < old(self).rest().len() ==> r == Some(&old(self).rest()[n as int]),
+            n >= old(self).rest().len() ==> r is None,
+    { unimplemented!() }
+
+    #[verifier::external_body]
+    pub fn peek_first(&mut self) -> (r: Option<&char>)
+        ensures
+            final(self).rest() == old(self).rest(), final(self).cursor() == old(self).cursor(),
+            0 < old(self).rest().len() ==> r == Some(&old(self).rest()[0]),
+            0 == old(self).rest().len() ==> r is None,
+    { unimplemented!() }
+
+    #[verifier::external_body]
+    pub fn peek_next(&mut self) -> (r: Option<&char>)
+        ensures
+            final(self).rest() == old(self).rest(),
+            final(self).cursor() == if old(self).cursor() < usize::MAX { old(self).cursor() + 1 } else { old(self).cursor() },
+            final(self).cursor() < old(self).rest().len() ==> r == Some(&old(self).rest()[final(self).cursor() as int]),
+            final(self).cursor() >= old(self).rest().len() ==> r is None,
+    { unimplemented!() }
+
+    #[verifier::external_body]
+    pub fn advance_cursor(&mut self)
+        ensures
+            final(self).rest() == old(self).rest(),
+            final(self).cursor() == if old(self).cursor() < usize::MAX { old(self).cursor() + 1 } else { old(self).cursor() },
+    { unimplemented!() }
+
+    #[verifier::external_body]
+    pub fn advance_cursor_by(&mut self, n: usize)
+        requires old(self).cursor() + n <= usize::MAX,
+        ensures final(self).rest() == old(self).rest(), final(self).cursor() == old(self).cursor() + n,
+    { unimplemented!() }
+
+    #[verifier::external_body]
+    pub fn reset_cursor(&mut self)
+        ensures final(self).rest() == old(self).rest(), final(self).cursor() == 0,
+    { unimplemented!() }
+
+    #[verifier::external_body]
+    pub fn peek_range(&mut self, start: usize, end: usize) -> (r: &[Option<char>])
+        requires start <= end,
+        ensures
+            final(self).rest() == old(self).rest(), final(self).cursor() == old(self).cursor(),
+            r@.len() == end - start,
+            forall|i: int| 0 <= i < end - start ==> #[trigger] r@[i] == (if start + i < old(self).rest().len() { Some(old(self).rest()[start + i]) } else { None::<char> }),
     { unimplemented!() }
 
     #[verifier::external_body]
     pub fn peek_amount(&mut self, n: usize) -> (r: &[Option<char>])
         ensures
-            final(self).rest() == old(self).rest(),
+            final(self).rest() == old(self).rest(), final(self).cursor() == old(self).cursor(),
             r@.len() == n,
             forall|i: int| 0 <= i < n ==> #[trigger] r@[i] == (if i < old(self).rest().len() { Some(old(self).rest()[i]) } else { None::<char> }),
+    { unimplemented!() }
+
+    #[verifier::external_body]
+    pub fn next_if_eq(&mut self, expected: &char) -> (r: Option<char>)
+        ensures
+            (old(self).rest().len() > 0 && old(self).rest()[0] == *expected) ==> r == Some(old(self).rest()[0])
+                && final(self).rest() == old(self).rest().skip(1)
+                && final(self).cursor() == if old(self).cursor() > 0 { (old(self).cursor() - 1) as nat } else { 0 },
+            !(old(self).rest().len() > 0 && old(self).rest()[0] == *expected) ==> r is None
+                && final(self).rest() == old(self).rest() && final(self).cursor() == old(self).cursor(),
     { unimplemented!() }
 }
